@@ -53,8 +53,25 @@ def forward_units(prop):
              "id": f"reactivex/observable/mixins/{f}.py::{c}"} for f, c in MIXINS]
 
 
+#: K7 (C43): the K1 contracts whose harness is re-run with lock-set obligations (path-sensitive; amb needs it)
+LOCKSET_UNITS = [("contracts.c11", "merge_all"), ("contracts.c11", "merge_concurrent"), ("contracts.c13", "zip/2"),
+                 ("contracts.c13", "zip/3"), ("contracts.c13", "combine_latest/2"), ("contracts.c13", "combine_latest/3"),
+                 ("contracts.c13", "with_latest_from/2"), ("contracts.c13", "with_latest_from/3"), ("contracts.c13", "amb")]
+
+
+def lockset_units(prop):
+    from . import lockdisc
+    out = [{"runner": "lockset", "module": m, "name": n, "prop": prop, "id": f"lockset/{n}"} for m, n in LOCKSET_UNITS]
+    for u in lockdisc.UNITS:
+        name, rel, func, kind = u[:4]
+        out.append({"runner": "lockdisc", "name": name, "file": rel, "func": func, "mode": kind, "prop": prop,
+                    "race": u[4] if len(u) > 4 else name, "id": f"lockdisc/{rel}::{func}"})
+    return out
+
+
 #: which unit families each property draws on
 FAMILIES = {
+    "C43": ["lockset"],
     "C05": ["op"],
     "C06": ["op"],
     "C07": ["slice"],
@@ -87,6 +104,8 @@ def units_for(prop, tier):
         us += forward_units(prop)
     if "class" in fams:
         us += class_units(prop)
+    if "lockset" in fams:
+        us += lockset_units(prop)
     if "slice" in fams:
         us.append({"runner": "slicelemma", "prop": prop, "id": "reactivex/operators/_slice.py::slice_"})
     if "vts" in fams:
